@@ -5,6 +5,7 @@ exit 0: property holds on this input; exit 1: violated (reproduced); exit 3: rep
 Prints one JSON line "XVREPLAY {...}".
 """
 
+import xv
 import json
 import logging
 import sys
@@ -28,8 +29,8 @@ def run_one(rec, profile=False):
         def prof(frame, event, arg):
             if event == "call":
                 fn = frame.f_code.co_filename
-                if fn.startswith("/repo/xandikos/"):
-                    modname = fn[len("/repo/"):-3].replace("/", ".")
+                if fn.startswith(xv.REPO + "/xandikos/"):
+                    modname = fn[len(xv.REPO) + 1:-3].replace("/", ".")
                     if modname.endswith(".__init__"):
                         modname = modname[:-9]
                     qn = getattr(frame.f_code, "co_qualname", frame.f_code.co_name)
